@@ -310,7 +310,12 @@ struct Eval {
             const Sc idx = d.layers[k + 1].in;
             std::vector<ld> y(L.N);
             for (size_t a = 0; a < L.N; ++a) {
-                ld r = std::rint(c[a]);   // round-half-even, as lrint in the default rounding mode
+                if (std::fabs(c[a] - std::floor(c[a])) == 0.5L) {
+                    // an exact tie: either neighbour is a nearest lattice point (C04); no particular choice is demanded
+                    out("nearest-neighbour coordinate exactly half way between two lattice points");
+                    return bad;
+                }
+                ld r = std::rint(c[a]);
                 if (!(std::fabs(r) < 0x1p62L)) {
                     out("nearest-neighbour coordinate beyond the range of long");
                     return bad;
